@@ -98,7 +98,7 @@ def Inv (G : Grammar) (A : Automaton) (C : Cert) (w : List Token) (c : Config) :
 def StepPost (G : Grammar) (A : Automaton) (C : Cert) (w : List Token) (c : Config) : StepOut → Prop
   | .next c' => Inv G A C w c' ∧ c.cursor ≤ c'.cursor
   | .done (.accept t) =>
-    ParseTree G t ∧ t.root = G.start ∧ lookahead A w c.cursor = G.eoi ∧ t.yield = w.take c.cursor
+    ParseTree G t ∧ t.root = G.start ∧ w.length ≤ c.cursor ∧ t.yield = w.take c.cursor
   | .done (.internal _) => False
   | .done _ => True
 
@@ -113,9 +113,9 @@ theorem step_post (hv : Valid G A C) (w : List Token) (c : Config) (hi : Inv G A
   obtain ⟨hl, hy⟩ := hi
   unfold step
   simp only []
-  cases hact : A.actionOf (topState c.stack) (lookahead A w c.cursor) with
+  cases hact : nextAction A w (topState c.stack) c.cursor with
   | shift s' =>
-    have he := Automaton.actionOf_nonerror hact rfl
+    obtain ⟨hcl, he⟩ := nextAction_nonerror hact rfl
     obtain ⟨hlt, r, hr, hmem⟩ := Automaton.entry_mem he
     have hj := hv.actJust _ hlt r hr _ hmem
     have hk := hv.kernel.1 _ hlt r hr _ hmem s' rfl
@@ -134,7 +134,7 @@ theorem step_post (hv : Valid G A C) (w : List Token) (c : Config) (hi : Inv G A
       · simp only [List.map_cons, List.reverse_cons, yieldL_append, hy, Tree.yieldL, Tree.yield]
         rw [List.take_add_one, hw]; simp
   | accept =>
-    have he := Automaton.actionOf_nonerror hact rfl
+    obtain ⟨hcl, he⟩ := nextAction_nonerror hact rfl
     obtain ⟨hlt, r, hr, hmem⟩ := Automaton.entry_mem he
     have hj := (hv.actJust _ hlt r hr _ hmem).2
     obtain ⟨hla, hit⟩ := hj
@@ -146,7 +146,7 @@ theorem step_post (hv : Valid G A C) (w : List Token) (c : Config) (hi : Inv G A
       have hla' : lookahead A w c.cursor = A.eoi := by rw [hv.eoi_eq]; exact hla
       simp only [if_pos hla', StepPost]
       rw [hst] at hroots hy hl
-      refine ⟨hl.2.1, ?_, hla, ?_⟩
+      refine ⟨hl.2.1, ?_, length_le_of_eoi hcl hla', ?_⟩
       · simpa [Grammar.seed] using hroots
       · simpa [Tree.yieldL] using hy
     | (s, t) :: (s2, t2) :: rest =>
@@ -155,7 +155,7 @@ theorem step_post (hv : Valid G A C) (w : List Token) (c : Config) (hi : Inv G A
       have := (hl.2.2.1.2.2 _ hbelow).1 rfl
       exact this rfl
   | reduce pi =>
-    have he := Automaton.actionOf_nonerror hact rfl
+    obtain ⟨hcl, he⟩ := nextAction_nonerror hact rfl
     obtain ⟨hlt, r, hr, hmem⟩ := Automaton.entry_mem he
     obtain ⟨hpi, p, hp, hit⟩ := (hv.actJust _ hlt r hr _ hmem).2
     have hp' : C.ruleAt pi = some p := hp
@@ -196,7 +196,7 @@ theorem inv_init (w : List Token) : Inv G A C w init := by
 theorem runFrom_post (hv : Valid G A C) (w : List Token) : ∀ (f : Nat) (c : Config), Inv G A C w c →
     (∀ m, runFrom A w f c ≠ .internal m) ∧
     (∀ t, runFrom A w f c = .accept t → ParseTree G t ∧ t.root = G.start ∧
-      ∃ k, lookahead A w k = G.eoi ∧ t.yield = w.take k)
+      ∃ k, w.length ≤ k ∧ t.yield = w.take k)
   | 0, c, _ => by simp [runFrom]
   | f + 1, c, hi => by
     have hp := step_post hv w c hi
@@ -216,14 +216,5 @@ theorem runFrom_post (hv : Valid G A C) (w : List Token) : ∀ (f : Nat) (c : Co
       | internal m => exact absurd hp (by simp [StepPost])
       | error _ _ _ _ => exact ⟨(by intro m h; cases h), (by intro t h; cases h)⟩
       | outOfFuel => exact ⟨(by intro m h; cases h), (by intro t h; cases h)⟩
-
-theorem lookahead_eoi_ge {w : List Token} (hw : ∀ t ∈ w, t.sym ≠ G.eoi) {k : Nat}
-    (h : lookahead A w k = G.eoi) : w.length ≤ k := by
-  by_cases hk : k < w.length
-  · exfalso
-    have : w[k]? = some w[k] := List.getElem?_eq_getElem hk
-    simp only [lookahead, this] at h
-    exact hw _ (List.getElem_mem hk) h
-  · exact Nat.le_of_not_lt hk
 
 end Emboss.Lr1
